@@ -28,6 +28,8 @@ pub trait Scalar: MomTropFloat + Copy + 'static {
     fn as_f64(&self) -> Option<f64>;
     /// values handed to a `Logger::write` call: node ids narrowed by to_f64 (Sym) / the numbers (f64)
     fn capture_logged(js: &serde_json::Value) -> Vec<Self>;
+    /// k-th 64-bit word of the harness RNG: tags (k+1)<<11 symbolically, a mixing function natively
+    fn rng_word(k: u64) -> u64;
     /// symbolic run: (arguments, result) of every narrowing through f64 so far
     fn narrow_log() -> Vec<(Vec<Self>, Self)> {
         vec![]
@@ -73,6 +75,9 @@ impl Scalar for Sym {
     }
     fn capture_logged(_js: &serde_json::Value) -> Vec<Self> {
         sym::CTX.with(|c| std::mem::take(&mut c.borrow_mut().pending_narrow)).into_iter().map(Sym).collect()
+    }
+    fn rng_word(k: u64) -> u64 {
+        (k + 1) << 11
     }
     fn narrow_log() -> Vec<(Vec<Self>, Self)> {
         sym::CTX.with(|c| c.borrow().narrow_events.iter().map(|(a, r)| (a.iter().map(|i| Sym(*i)).collect(), Sym(*r))).collect())
@@ -126,6 +131,11 @@ impl Scalar for f64 {
     fn as_f64(&self) -> Option<f64> {
         Some(*self)
     }
+    fn rng_word(k: u64) -> u64 {
+        // the word whose rand::Rng::gen::<f64>() image is (the 53-bit truncation of) the model's x_k
+        let v = <f64 as Scalar>::var(&format!("x{}", k));
+        ((v * 9007199254740992.0) as u64) << 11
+    }
     fn capture_logged(js: &serde_json::Value) -> Vec<Self> {
         match js {
             serde_json::Value::Array(a) => a.iter().map(|v| v.as_f64().unwrap_or(f64::NAN)).collect(),
@@ -166,6 +176,7 @@ pub fn native_violation(g: &Goal<f64>, tol: f64) -> Option<String> {
     let (a, b) = (g.lhs, g.rhs);
     let sc = g.scale.unwrap_or_else(|| a.abs().max(b.abs())).abs().max(f64::MIN_POSITIVE);
     let bad = match g.rel {
+        Rel::Eq | Rel::Le if a.to_bits() == b.to_bits() => false,
         _ if a.is_nan() || b.is_nan() => true,
         Rel::Eq => (a - b).abs() > tol * sc,
         Rel::Le => a - b > tol * sc,
